@@ -66,17 +66,61 @@ def r_ddl(ctx: Ctx, model, mach):
         ok = t in T and c in T[t].columns and T[t].columns[c]["notnull"]
         ctx.ob(ok, Finding("C08.D-ddl", where, f"notnull:{t}.{c}", f"table {t}: column {c} lost NOT NULL"),
                nontrivial_key=("notnull", t, c))
-    # the creator runs every pragma and registers the three isotherm types the writer uses
+    # the creator runs every pragma and registers the isotherm types the writer uses: db_create and isotherm_to_db are interpreted on
+    # the abstract connection and the values bound to isotherm_type.type / isotherms.iso_type are compared
+    from .C09 import mk_iso
+    I = mach.I
     cr = model.func("pygaps.utilities.sqlite_db_creator.db_create")
-    src = ast.unparse(cr.node)
-    types = set(re.findall(r"isotherm_type_to_db\(\{'type': '(\w+)'\}", src))
-    wr = model.func(f"{SQLITE}.isotherm_to_db")
-    used = set(re.findall(r"upload_dict\['iso_type'\] = '(\w+)'", ast.unparse(wr.node)))
-    ctx.ob(used and used <= types, Finding("C08.D-ddl", cr.where, f"iso-types:{sorted(used - types)}",
-                                           f"isotherm_to_db writes iso_type values {sorted(used)} but db_create registers only {sorted(types)}"),
+    executed = []
+    saved_over, saved_ext = dict(I.overrides), dict(I.ext)
+    I.overrides["pygaps.utilities.sqlite_utilities.db_execute_general"] = lambda I, fi_, env, n: executed.append(env.get("statement"))
+    for nm in ("adsorbate_property_type_to_db", "adsorbate_to_db", "material_property_type_to_db", "material_to_db"):
+        I.overrides[f"{SQLITE}.{nm}"] = lambda I, fi_, env, n: None
+    I.ext["json.loads"] = lambda I, a, k, n: []
+    for nm in ("importlib.resources.files", "importlib_resources.files"):
+        I.ext[nm] = lambda I, a, k, n: Obj(kind="ResourceDir", label="resources")
+    I.libmeth[("ResourceDir", "joinpath")] = lambda I, v, a, k, n: Obj(kind="ResourceFile", label="resource")
+    I.libmeth[("ResourceDir", "__truediv__")] = I.libmeth[("ResourceDir", "joinpath")]
+    I.libmeth[("ResourceFile", "read_text")] = lambda I, v, a, k, n: "[]"
+    saved_inject, mach.inject = mach.inject, False
+    types, used = set(), set()
+    try:
+        executed.clear()
+        outs = mach.explore(lambda I: I.call_func(cr, ["NEW.db"], {}, None))
+        for oc, trace in outs:
+            if oc.kind != "ok":
+                continue
+            for e in trace:
+                if e[0] == "bind" and e[2] == "isotherm_type":
+                    for row in (e[3] if isinstance(e[3], (list, tuple)) else [e[3]]):
+                        if isinstance(row, dict) and isinstance(row.get("type"), str):
+                            types.add(row["type"])
+        ran = list(executed)
+    finally:
+        I.overrides.clear()
+        I.overrides.update(saved_over)
+        I.ext.clear()
+        I.ext.update(saved_ext)
+    try:
+        wr = model.func(f"{SQLITE}.isotherm_to_db")
+        for kind in ("point", "model", "base"):
+            for oc, trace in mach.explore(lambda I, kind=kind: I.call_func(wr, [mk_iso(I, kind)], {"db_path": "USER.db", "verbose": False}, None)):
+                for e in trace:
+                    if e[0] == "bind" and e[2] == "isotherms":
+                        for row in (e[3] if isinstance(e[3], (list, tuple)) else [e[3]]):
+                            if isinstance(row, dict) and "iso_type" in row:
+                                used.add(row["iso_type"] if isinstance(row["iso_type"], str) else I.describe(row["iso_type"]))
+    finally:
+        mach.inject = saved_inject
+    ctx.ob(len(used) == 3 and used <= types, Finding("C08.D-ddl", cr.where, f"iso-types:{sorted(used - types)}",
+                                                     f"isotherm_to_db writes the iso_type values {sorted(used)} (point / model / metadata-only isotherm) but db_create "
+                                                     f"registers only {sorted(types)}: an upload of the missing kind is refused by the foreign key"),
            nontrivial_key=("isotypes",))
-    ctx.ob("for pragma in PRAGMAS" in src, Finding("C08.D-ddl", cr.where, "creator-runs-all-pragmas",
-                                                   "db_create no longer executes every statement of PRAGMAS"))
+    pragmas = I.global_value("pygaps.utilities.sqlite_db_pragmas", "PRAGMAS")
+    ctx.ob(isinstance(pragmas, list) and ran == pragmas, Finding("C08.D-ddl", cr.where, "creator-runs-all-pragmas",
+                                                                 f"db_create executes {len(ran)} of the {len(pragmas) if isinstance(pragmas, list) else '?'} "
+                                                                 "statements of PRAGMAS (in order): tables or constraints are missing from a new file"),
+           nontrivial_key=("pragmas",))
 
 
 def r_collation(ctx: Ctx, mach):
